@@ -569,7 +569,13 @@ def G6_no_extra_rejection(rep, flow: Flow):
         for r in raises:
             for (label, env) in envs:
                 try:
-                    if all(symeval.decision_holds(k, v, env, ce) for k, v in r.decisions.items()):
+                    try:
+                        holds = all(symeval.decision_holds(k, v, env, ce) for k, v in r.decisions.items())
+                    except symeval.WouldRaise as wr:
+                        # the conditions before it hold (decisions are in evaluation order) and this one cannot even be evaluated
+                        bad = (label, str(wr), [fmt(k[1]) for k in r.decisions if k[0] in ("truth", "isnone")][-2:])
+                        break
+                    if holds:
                         # every condition on the way to this raise is satisfied by a valid request
                         relevant = [k for k in r.decisions if k[0] in ("truth", "isnone")]
                         if not relevant:
@@ -581,6 +587,38 @@ def G6_no_extra_rejection(rep, flow: Flow):
                     continue
             if bad:
                 break
+        # the support gate itself is not followed by the interpreter: each of its calls is evaluated exactly on the
+        # values a valid request gives to its arguments (a gate asked about something else than the request refuses it)
+        if not bad:
+            seen_calls = set()
+            for r in flow.paths(f.fq):
+                if bad:
+                    break
+                for ev in r.events:
+                    if ev[0] != "call" or ev[1] not in (GATE_FQ, IS_SUPPORTED_FQ):
+                        continue
+                    for (label, env) in envs:
+                        if (ev[4], label) in seen_calls:
+                            continue
+                        try:
+                            # only requests that actually take this path (its decisions hold for them)
+                            if not all(symeval.decision_holds(k, v, env, ce) for k, v in r.decisions.items() if k[0] != "cache-miss"):
+                                continue
+                            seen_calls.add((ev[4], label))
+                            vals = [symeval.concretize(vkey(a), env, ce) for a in ev[2]]
+                            kw = {k: symeval.concretize(vkey(v), env, ce) for k, v in ev[3].items()}
+                        except (symeval.Unknown, symeval.WouldRaise):
+                            continue
+                        try:
+                            o = ce.outcome(ev[1], *vals, **kw)
+                        except AnalysisError:
+                            continue
+                        n_decided += 1
+                        if o[0] == "raise" or (ev[1] == IS_SUPPORTED_FQ and o[0] == "return" and o[1] is False):
+                            bad = (label, f"{ev[1].split('.')[-1]}({', '.join(repr(v) for v in vals)}) -> {o[1] if o[0] == 'raise' else False}", [f"gate call at {ev[4]}"])
+                            break
+                    if bad:
+                        break
         if bad:
             rep.finding("G6", f"{f.fq}:rejects:{bad[0].split(',')[1].strip(' )')}", f"{f.module.rel} {f.qualname}: a valid request for the advertised configuration {bad[0]} is rejected (`raise {bad[1][:80]}`) under the conditions {bad[2]}")
         else:
